@@ -797,6 +797,23 @@ func genC11(t *rapid.T) c11Case {
 			recs = append(recs, c11Chain("r", rapid.IntRange(0, n+1).Draw(t, "L"))...)
 		}
 	}
+	// one book in four writes its recipe names as category paths with an empty or blank segment ("meal//r3", "a/ /r3"):
+	// a name is looked up as it is written
+	if c.Shape != "dag" && rapid.IntRange(0, 3).Draw(t, "oddpaths") == 0 {
+		pre := []string{"meal//", "a/ /", "/", "x/./", "m/"}[rapid.IntRange(0, 4).Draw(t, "oddprefix")]
+		isHead := map[string]bool{}
+		for _, r := range recs {
+			isHead[r.Head] = true
+		}
+		for ri := range recs {
+			recs[ri].Head = pre + recs[ri].Head
+			for li := range recs[ri].Lines {
+				if isHead[recs[ri].Lines[li].Name] {
+					recs[ri].Lines[li].Name = pre + recs[ri].Lines[li].Name
+				}
+			}
+		}
+	}
 	if len(recs) > 1 {
 		perm := rapid.Permutation(vIota(len(recs))).Draw(t, "decl")
 		nr := make([]vRec, len(recs))
